@@ -26,6 +26,9 @@ MUT_SRCS ?=
 # AUX_TSAN := aux/file.cpp builds a second binary $(OUT)/aux_tsan from that source + TSAN_SRCS with the REAL
 # ThreadSanitizer runtime (free-running auxiliary race pass; no scheduler, no ABI shim)
 AUX_TSAN ?=
+# INCLUDED_SRCS := net_processing.cpp : repo sources that a harness TU #includes as a whole (to reach file-local classes);
+# they are never compiled separately for a mutant build (the harness TU picks the shadow copy up through the include path)
+INCLUDED_SRCS ?=
 -include $(SRC)/build.mk
 
 CXX := g++
@@ -60,7 +63,7 @@ KITS += glue
 endif
 KITDIR := $(if $(SHADOW),$(OUT)/kits,$(BUILD)/kits)
 KITOBJS := $(patsubst %,$(KITDIR)/%.o,$(sort $(KITS)))
-MUTOBJS := $(patsubst %.cpp,$(OUT)/mut/%.o,$(MUT_SRCS))
+MUTOBJS := $(patsubst %.cpp,$(OUT)/mut/%.o,$(filter-out $(INCLUDED_SRCS),$(MUT_SRCS)))
 ifeq ($(SCHED),1)
 SCHEDOBJS := $(BUILD)/vx/sched.o $(BUILD)/vx/tsanabi.o $(BUILD)/vx/sched_cb.o
 endif
